@@ -165,6 +165,10 @@ inline LOp to_labels(const Sys &s, const Op &o) {
     case DEL_F: l.a = {F(o.a[0])}; break;
     case DEL_C: l.a = {C(o.a[0])}; break;
     case COLLAPSE: l.a = {HE(o.a[0])}; break;
+    case STATUS_GC:
+        l.a.push_back(o.a[0]);
+        for (int i = 1; i < o.n; ++i) { int kind = o.a[i] / 1000, h = o.a[i] % 1000; l.a.push_back(kind); l.a.push_back(kind == 0 ? V(h) : kind == 1 ? E(h) : kind == 2 ? F(h) : C(h)); }
+        break;
     default: for (int i = 0; i < o.n; ++i) l.a.push_back(o.a[i]); break;
     }
     return l;
@@ -219,6 +223,34 @@ inline int abs_apply(Abs &a, const LOp &o, const Abs *actual, Viols &vs) {
     case VBU: a.vbu = o.a[0] != 0; return -1;
     case EBU: a.ebu = o.a[0] != 0; return -1;
     case FBU: a.fbu = o.a[0] != 0; return -1;
+    case STATUS_GC: {
+        int mode = o.a[0];
+        bool was_deferred = a.deferred;
+        a.deferred = true;  // marked entities are deleted in deferred fashion, then collected together with what was pending before
+        std::set<int> vs_, es_, fs_, cs_;
+        for (size_t i = 1; i + 1 < o.a.size(); i += 2) { int kind = o.a[i], label = o.a[i + 1]; (kind == 0 ? vs_ : kind == 1 ? es_ : kind == 2 ? fs_ : cs_).insert(label); }
+        // only entities that are still live can be deleted
+        auto liveonly = [&](std::set<int> &x, auto &mp, auto isdel) { for (auto it = x.begin(); it != x.end();) { auto f = mp.find(*it); it = (f == mp.end() || isdel(f->second)) ? x.erase(it) : std::next(it); } };
+        liveonly(vs_, a.V, [](bool d) { return d; });
+        liveonly(es_, a.Es, [](const Abs::E &e) { return e.del; });
+        liveonly(fs_, a.Fs, [](const Abs::F &f) { return f.del; });
+        liveonly(cs_, a.Cs, [](const Abs::C &c) { return c.del; });
+        a.delete_closure(vs_, es_, fs_, cs_);
+        if (mode == 3 || mode == 5) {
+            // manifoldness: faces in no live cell, then edges in no remaining face, then vertices in no remaining edge
+            std::set<int> df, de, dv;
+            for (auto &f : a.Fs) if (!f.second.del && a.cells_of_faces({f.first}).empty()) df.insert(f.first);
+            a.delete_closure({}, {}, df, {});
+            for (auto &e : a.Es) if (!e.second.del && a.faces_of_edges({e.first}).empty()) de.insert(e.first);
+            a.delete_closure({}, de, {}, {});
+            for (auto &v : a.V) if (!v.second && a.edges_of_vertex(v.first).empty()) dv.insert(v.first);
+            a.delete_closure(dv, {}, {}, {});
+            a.vbu = a.ebu = a.fbu = true;  // the manifoldness pass enables all bottom-up incidences (observable side effect)
+        }
+        a.gc();
+        a.deferred = mode == 1 ? false : was_deferred;
+        return -1;
+    }
     default: VIOL(vs, "harness:unsupported-op", "abs_apply " << OPNAMES[o.k]); return -1;
     }
 }
